@@ -59,9 +59,16 @@ def run_history(cfg, hist, final=True):
     O = ops_for(cfg)
     vio = []
     last_ok_fd = None
+    log_mark = 0
     for i, name in enumerate(hist):
         a, b = O[name]
         s.peer.watch.clear()
+        # the peer dropping the connection (FIN / RST / ICMP error read from that socket) ends the obligation to
+        # reuse it: "after a dropped connection the next request transparently reconnects"
+        if last_ok_fd is not None and any(e[0] == 'rx' and e[1] == last_ok_fd and e[3] in ('err', 'eof')
+                                          for e in s.kern.log[log_mark:]):
+            last_ok_fd = None
+        log_mark = len(s.kern.log)
         if a == 'close':
             s.close()
             if n_open(s) != 0:
@@ -84,6 +91,9 @@ def run_history(cfg, hist, final=True):
                 vio.append(('at-most-one', f'{n_open(s)} open after request {name}'))
             if not cfg['ka'] and n_open(s) != 0:
                 vio.append(('keepalive-off:closed-after-request', f'{n_open(s)} open after request {name} ({obs.result[0]})'))
+            if last_ok_fd is not None and any(e[0] == 'rx' and e[1] == last_ok_fd and e[3] in ('err', 'eof')
+                                              for e in s.kern.log[log_mark:]):
+                last_ok_fd = None
             if cfg['ka'] and obs.result[0] == 'ok' and name == 'ok' and obs.txs:
                 fd = obs.txs[-1][1]
                 if last_ok_fd is not None and fd != last_ok_fd:
